@@ -402,8 +402,63 @@ func RunRace(c *vf.Check) []func() {
 	return jobs
 }
 
+// coldStart: the first arithmetic this process performs on each group is done by two goroutines at once, so that
+// whatever a package builds lazily on first use (tables, cached constants) meets two first users. Runs in every worker
+// process before anything else touches the groups.
+func coldStart(c *vf.Check) {
+	var off int64
+	raceLog(&off)
+	for _, g := range groups.All() {
+		g := g
+		id := "cold start: first arithmetic on " + g.Name + " by two goroutines"
+		c.CaseOnce(id, "C20/race/cold start", func(x *vf.Ctx) {
+			prog := func() []byte {
+				k := g.Scalar().SetInt64(1234567)
+				var P kyber.Point
+				if g.MulNil {
+					P = g.Point().Mul(k, nil)
+				} else {
+					P = g.Point().Mul(k, g.Gen())
+				}
+				Q := g.Point().Add(P, g.Point().Neg(P))
+				Q = g.Point().Sub(Q, P)
+				if hp, ok := g.Point().(kyber.HashablePoint); ok {
+					Q = g.Point().Add(Q, hp.Hash([]byte("cold")))
+				}
+				if g.Pick {
+					Q = g.Point().Add(Q, g.Point().Pick(alpha.Stream("c20-cold")))
+				}
+				return append(fmod.Enc(Q), []byte(P.String())...)
+			}
+			var r0, r1 []byte
+			var wg sync.WaitGroup
+			wg.Add(2)
+			go func() { defer wg.Done(); r0 = prog() }()
+			go func() { defer wg.Done(); r1 = prog() }()
+			wg.Wait()
+			c.Eval(1)
+			if rep := raceLog(&off); strings.Contains(rep, "DATA RACE") {
+				first := raceRe.FindString(rep)
+				if first == "" {
+					first = rep
+				}
+				if len(first) > 3000 {
+					first = first[:3000]
+				}
+				x.Fail("C20/race/cold start/"+raceSite(first), "data race between the first two users of "+g.Name, first)
+			}
+			if !bytes.Equal(r0, r1) || !bytes.Equal(r0, prog()) {
+				x.Failf("C20/result/cold start "+g.Name, "%s: the two first users and a later sequential run disagree", id)
+			}
+		})
+		c.Count("transitions", 1)
+		c.Nontrivial(id)
+	}
+}
+
 func Run(c *vf.Check) {
 	c.Level = "model_checking"
+	coldStart(c)
 	jobs := RunRace(c)
 	vf.Parallel(len(jobs), func(i int) { jobs[i]() })
 	raceOn := os.Getenv("VERIF_RACE_LOG") != ""
